@@ -5,6 +5,8 @@ CONSTANTS
   ProcOf <- CProcOf
   Prog <- CProg
   Modes = {"fork", "spawn"}
+  QInit = {TRUE}
+  MaxToggle = 0
   CopyStep = FALSE
   Variant = "code"
 INVARIANT TypeOK
